@@ -68,8 +68,8 @@ def job_formation_limit(name, tier):
         if isinstance(r, Panic): J.panic(pc, r); continue
         net, res = r; J.reached += 1
         tp, tv = net.types[0]['limit']; sp_, sv = net.info[net.trips[0]]['limit']
-        got_present = res.variant == 1
-        got_val = res.fields[0].e if got_present else z3.IntVal(-1)
+        gp, gv = M.opt_parts(ex, res)
+        got_val = gv.e if gv is not None else z3.IntVal(-1)
         spec_present = z3.Or(tp, sp_)
         spec_val = z3.If(z3.And(tp, sp_), z3.If(tv < sv, tv, sv), z3.If(tp, tv, sv))
         for tag, cond in (('limit:segment-only', z3.And(z3.Not(tp), sp_)), ('limit:type-only', z3.And(tp, z3.Not(sp_))), ('limit:both', z3.And(tp, sp_)), ('limit:neither', z3.And(z3.Not(tp), z3.Not(sp_)))):
@@ -80,8 +80,8 @@ def job_formation_limit(name, tier):
             exp = (min([x for x in ([mval(m, tv)] if mval(m, tp) else []) + ([mval(m, sv)] if mval(m, sp_) else [])]) if (mval(m, tp) or mval(m, sp_)) else None)
             return dict(signature=sig, what='maximal formation count of a segment is not the minimum of the limits that are present (%s)' % sig,
                         scenario=dict(instance=NB.to_json(net, m), ops=[dict(op='formation_limit', node=node_id(net, t))]), expect=[exp])
-        J.prove(pc, z3.And(spec_present == z3.BoolVal(got_present), z3.Implies(spec_present, got_val == spec_val)), 'formation-limit = min of present limits', mk)
-        J.sample('maximal_formation_count_for(trip) == min(present limits); path returns %s' % ('Some(%s)' % z3.simplify(got_val) if got_present else 'None'))
+        J.prove(pc, z3.And(spec_present == gp, z3.Implies(spec_present, got_val == spec_val)), 'formation-limit = min of present limits', mk)
+        J.sample('maximal_formation_count_for(trip) == min(present limits); path returns present=%s value=%s' % (z3.simplify(gp), z3.simplify(got_val)))
     return J.result()
 
 def job_required(name, tier):
